@@ -225,6 +225,14 @@ class Check:
         self.notes = []
         self.rule = ''
         self.streams = {}
+        # replay files of earlier runs of this property are stale
+        if os.path.isdir(REPLAYS):
+            for fn in os.listdir(REPLAYS):
+                if fn.startswith(prop + '_'):
+                    try:
+                        os.unlink(os.path.join(REPLAYS, fn))
+                    except OSError:
+                        pass
 
     def count(self, key, n=1):
         self.hist[key] = self.hist.get(key, 0) + n
